@@ -10,8 +10,8 @@ import (
 // The global level (static.go): the static loader as a writable node `(stw)`, the process-wide list of declared types
 // (`reg`) and px.ResolveResolvables (`rr`).
 //
-// genStatic: (a) every history of length <= 2 (quick) / <= 3 (thorough) over the REAL static loader <- 1 <- 2 with the names
-// {a, A, b} and the 39 steps of the plain exhaustive stream; (b) every history of length <= 3 / <= 4 over a plain chain of
+// genStatic: (a) every history of length <= 2 over the REAL static loader <- 1 <- 2 with the names {a, A, b} and the 39 steps
+// of the plain exhaustive stream (thorough: also length 3 over 18 of them); (b) every history of length <= 3 / <= 4 over a plain chain of
 // three loaders with declarations and resolutions mixed into lookups and definitions; (c) the same, shorter, with the
 // static loader as the root ("during init").
 func genStatic(g *core.G, maxLen int) {
@@ -40,7 +40,27 @@ func genStatic(g *core.G, maxLen int) {
 		}
 		alpha = append(alpha, fmt.Sprintf("(disc %d all)", l))
 	}
-	emitAll("(tree (stw) (p 0) (p 1))", alpha, maxLen-1)
+	// (what is written into the real static loader stays there and every Discover through it walks all of it: this stream
+	// is kept small — all 39 steps up to length 2; thorough: length 3 over the 18 steps of loaders 0 and 2, names a and A)
+	emitAll("(tree (stw) (p 0) (p 1))", alpha, 2)
+	if maxLen > 3 {
+		var sub []string
+		for _, l := range []int{0, 2} {
+			for _, n := range []string{"a", "A"} {
+				x := nm("type", n, "r")
+				sub = append(sub, fmt.Sprintf("(load %d %s)", l, x), fmt.Sprintf("(def %d %s (t 1))", l, x),
+					fmt.Sprintf("(def %d %s (t 2))", l, x), fmt.Sprintf("(has %d %s)", l, x))
+			}
+			sub = append(sub, fmt.Sprintf("(disc %d all)", l))
+		}
+		for _, a := range sub {
+			for _, b := range sub {
+				for _, c := range sub {
+					g.Emit("hist (tree (stw) (p 0) (p 1)) (steps " + a + " " + b + " " + c + ")")
+				}
+			}
+		}
+	}
 	for _, a := range alpha {
 		g.Emit("hist (tree (stw) (f 0) (f 0)) (steps " + a + ")")
 	}
